@@ -276,3 +276,20 @@ Definition tv_run (c : tvcase) : list eout :=
 Definition corr_tv (c : tvcase) : bool := res_eqb (list_eqb eout_eqb) (tv_obs c) (Ok (tv_run c)).
 Definition holds_tv (c : tvcase) : bool :=
   corr_tv c && forallb (fun p => lp_contract (fst (fst p)) (snd (fst p)) (snd p)) (tv_coefs c).
+
+(* ---------------------------------------------------------------- long runs
+   Same demand as holds_multi, evaluated in linear time: the index formulas acc_spec and
+   zcross_spec cost O(n^2) under vm_compute, so the running sums are computed by the
+   recursion acc_go 0 and the crossings by the two-loop recursion, which ProofsCheck.v
+   proves equal to the index formulas for every input (holds_long c = holds_multi c). *)
+Definition long_holds1 (t : mtool) (zero : Qc) (xs : list Qc) (obs : res (list Qc)) : bool :=
+  match t with
+  | TAcc _ => rqlist_eqb obs (Ok (acc_go 0 xs))
+  | TZc h fs => rqlist_eqb obs (Ok (map zq (zcross h fs xs)))
+  | _ => multi_holds1 t zero xs obs
+  end.
+Definition holds_long (c : mucase) : bool :=
+  all2g (fun p o => long_holds1 (mu_tool c) (fst p) (snd p) o) (mu_ins c) (mu_obs c).
+
+(* compact literal for long lists: numerators over a common denominator *)
+Definition dl (d : positive) (l : list Z) : list Qc := map (fun n => qc n d) l.
